@@ -977,7 +977,7 @@ func (t *eqTreeGen) op() *OpDesc {
 		return &OpDesc{Builtin: []int{0, 7, 200}[t.r.Intn(3)]}
 	}
 	if t.r.Pct(15) {
-		return &OpDesc{User: true, Text: []string{"~=", "in", "="}[t.r.Intn(3)], Ctx: []string{"custom", "comparison"}[t.r.Intn(2)]}
+		return &OpDesc{User: true, Slice: t.r.Pct(30), Text: []string{"~=", "in", "="}[t.r.Intn(3)], Ctx: []string{"custom", "comparison"}[t.r.Intn(2)]}
 	}
 	return &OpDesc{Builtin: 1 + t.r.Intn(6)}
 }
